@@ -43,7 +43,7 @@ def ref_sound_off(i, notes, pedal, thr):
     return acc
 
 
-def make(n_notes, n_ctrl, two_thr=False):
+def make(n_notes, n_ctrl, two_thr=False, preset=False):
     names = []
     ann = {}
     for i in range(n_notes):
@@ -56,6 +56,9 @@ def make(n_notes, n_ctrl, two_thr=False):
             ann[names[-1]] = t
     names.append("thr")
     ann["thr"] = int
+    if preset:
+        names.append("extra")
+        ann["extra"] = float
     if two_thr:
         names.append("thr2")
         ann["thr2"] = int
@@ -86,9 +89,17 @@ def make(n_notes, n_ctrl, two_thr=False):
         thr = kw["thr"]
         require(0 <= thr <= 127)
 
+        extra = 0
+        if preset:
+            extra = kw["extra"]
+            require(0 <= extra <= 1000)
+
         def build(threshold):
             nd = [dict(id="n%d" % i, midi_pitch=p, note_on=on, note_off=off, velocity=64, track=0, channel=i % 2)
                   for i, (on, off, p) in enumerate(notes)]
+            if preset:  # note dicts that already carry a sounding end (copies of pedalled notes)
+                for n_, (on, off, p) in zip(nd, notes):
+                    n_["sound_off"] = off + extra
             return must_not_raise(P.PerformedPart, nd, id="P", controls=[dict(c) for c in controls],
                                   sustain_pedal_threshold=threshold, _what="PerformedPart()")
 
@@ -194,7 +205,8 @@ def make_tracks():
 def _inst(tier):
     if tier == "quick":
         return [{"n_notes": 1, "n_ctrl": 2}, {"n_notes": 2, "n_ctrl": 1}, {"n_notes": 2, "n_ctrl": 2},
-                {"n_notes": 1, "n_ctrl": 2, "two_thr": True}, {"n_notes": 2, "n_ctrl": 0}]
+                {"n_notes": 1, "n_ctrl": 2, "two_thr": True}, {"n_notes": 2, "n_ctrl": 0},
+                {"n_notes": 1, "n_ctrl": 0, "preset": True, "two_thr": True}, {"n_notes": 1, "n_ctrl": 1, "preset": True}]
     return [{"n_notes": 1, "n_ctrl": 2}, {"n_notes": 2, "n_ctrl": 1}, {"n_notes": 2, "n_ctrl": 2},
             {"n_notes": 1, "n_ctrl": 3}, {"n_notes": 3, "n_ctrl": 1}, {"n_notes": 2, "n_ctrl": 3},
             {"n_notes": 1, "n_ctrl": 2, "two_thr": True}, {"n_notes": 2, "n_ctrl": 2, "two_thr": True},
